@@ -2601,3 +2601,36 @@ package goatlang
 //@ func (*VM).btErr loop 0
 //@   invariant n >= -1 && n < len(bt) && bt == v.backtrace && v.globals != nil && (cap(lines) == 0 || isfresh(arr(lines)))
 //@   invariant forall j int :: 0 <= j && j < len(bt) ==> posOK(v.globals, bt[j])
+//@
+//@ func (*VM).run
+//@   property C03
+//@   requires v != nil && v.globals != nil && slots >= 0 && slots == slotsOf(codes)
+//@   modifies *
+//@   nopanic
+//@ func (*VM).run handler
+//@   assume vm.globals == v.globals && vm.globals != nil
+//@   assume forall j int :: 0 <= j && j < len(vm.frame.Codes) ==> posOK(vm.globals, vm.frame.Codes[j].Pos)
+//@   assume forall j int :: 0 <= j && j < len(vm.backtrace) ==> posOK(vm.globals, vm.backtrace[j])
+//@ func (*VM).Func
+//@   property C03 C19
+//@   requires v != nil && v.globals != nil
+//@   modifies *
+//@   nopanic
+//@   assume @0 slotsOf(vm.frame.Codes) == 0
+//@ func (*VM).Func handler
+//@   assume vm.globals == v.globals && vm.globals != nil
+//@   assume forall j int :: 0 <= j && j < len(vm.frame.Codes) ==> posOK(vm.globals, vm.frame.Codes[j].Pos)
+//@   assume forall j int :: 0 <= j && j < len(vm.backtrace) ==> posOK(vm.globals, vm.backtrace[j])
+//@ spec idxOK(l *lookup) bool
+//@   def forall k string :: haskey(l.keyToIndex, k) ==> 0 <= l.keyToIndex[k] && l.keyToIndex[k] < len(l.data)
+//@ func (*lookup).Get
+//@   property C08 C03
+//@   requires wfL(l) && idxOK(l)
+//@   modifies fields(l) elems(l.data) elems(l.indexToKey) M$Str$Int$dom M$Str$Int$val M$Str$Int$card
+//@   allocates elems(Value) elems(string)
+//@   nopanic
+//@ func (*VM).Call
+//@   property C03 C19
+//@   requires v != nil && wfL(v.globals) && idxOK(v.globals)
+//@   modifies *
+//@   nopanic
